@@ -146,7 +146,7 @@ theorem no_clobber (fl : Flags) (name : Tok) (w : World)
       · rfl
     cases ho : outName fl name with
     | none => rw [ho] at ht; cases ht
-    | some out => simp [hf, he, Effect.status]
+    | some out => simp [hf, he, Effect.status, outputOpenExcl]
 
 example : (admitOp { decompress := true } "a.bz2".toList { outExists := true }).status = 4 := by
   decide
